@@ -660,6 +660,8 @@ impl<'a> Lexer<'a> {
 
                     // add character and create token
                     self.current_characters.push(c);
+                    // the token may have started as trailing spaces or tabs (whitespace state)
+                    self.current_token_type = Some(TokenType::Subexpression);
 
                     // could've arrived here by passing through whitespace state
                     // check len of characters so see if 2 tokens need to be created
